@@ -19,7 +19,7 @@ demo_cmd() { # runs the demo; exit 0 = demo passes
   else
     # the script locates the crate root relative to itself (deliver/<x>/demo.sh)
     mkdir -p deliver/x && cp "$SRC/demo.sh" deliver/x/demo.sh
-    ( unset CARGO_TARGET_DIR; bash deliver/x/demo.sh )
+    ( unset CARGO_TARGET_DIR; cargo build --offline --bin aisparser >/dev/null 2>&1; AISPARSER="$PWD/target/debug/aisparser" bash deliver/x/demo.sh )
   fi
 }
 applies=$(res git apply --check "$SRC/patch.diff")
